@@ -227,13 +227,13 @@ Proof.
 Qed.
 
 (** * Aggregates over value-equal lists *)
-Definition qsum (l : list dec) : Q := fold_right (fun d acc => dval d + acc) 0 l.
+Fixpoint qsum (l : list dec) : Q := match l with [] => 0 | d :: r => dval d + qsum r end.
 
 Lemma fold_left_qsum : forall rest a, fold_left Qplus (map dval rest) a == a + qsum rest.
 Proof.
-  induction rest as [|x rest IH]; intros a; cbn [map fold_left qsum fold_right].
+  induction rest as [|x rest IH]; intros a; cbn [map fold_left qsum].
   - ring.
-  - rewrite IH. fold (qsum rest). ring.
+  - rewrite IH. ring.
 Qed.
 
 Lemma dsum_value first rest : dval (dsum first rest) == qsum (first :: rest).
@@ -241,14 +241,14 @@ Proof. rewrite dsum_exact, fold_left_qsum. reflexivity. Qed.
 
 Lemma qsum_app l1 l2 : qsum (l1 ++ l2) == qsum l1 + qsum l2.
 Proof.
-  induction l1 as [|x l1 IH]; cbn [app qsum fold_right]; [ring|].
-  fold (qsum (l1 ++ l2)). fold (qsum l1). rewrite IH. ring.
+  induction l1 as [|x l1 IH]; cbn [app qsum]; [ring|].
+  rewrite IH. ring.
 Qed.
 
 Lemma qsum_resp l1 l2 : Forall2 deqv l1 l2 -> qsum l1 == qsum l2.
 Proof.
-  induction 1 as [|x y l1 l2 Hxy Hl IH]; cbn [qsum fold_right]; [reflexivity|].
-  fold (qsum l1). fold (qsum l2). rewrite IH. unfold deqv in Hxy. rewrite Hxy. reflexivity.
+  induction 1 as [|x y l1 l2 Hxy Hl IH]; cbn [qsum]; [reflexivity|].
+  rewrite IH. unfold deqv in Hxy. rewrite Hxy. reflexivity.
 Qed.
 
 (** the sum of a list (0 for the empty list, as func_decimal_slice has it) *)
